@@ -3082,10 +3082,17 @@ where
                     }
 
                     let (vertex_key, hint) = result;
-                    if let Some(index) = index.as_deref_mut()
-                        && let Some(vertex) = self.tds.get_vertex_by_key(vertex_key)
-                    {
-                        index.insert_vertex(vertex_key, vertex.point().coords());
+                    if let Some(index) = index.as_deref_mut() {
+                        if self.tds.number_of_vertices() == D + 1 {
+                            // The initial simplex was just built: the TDS was replaced and every
+                            // vertex key may have changed, so re-key the whole index.
+                            index.clear();
+                            for (vkey, existing) in self.tds.vertices() {
+                                index.insert_vertex(vkey, existing.point().coords());
+                            }
+                        } else if let Some(vertex) = self.tds.get_vertex_by_key(vertex_key) {
+                            index.insert_vertex(vertex_key, vertex.point().coords());
+                        }
                     }
 
                     return Ok((InsertionOutcome::Inserted { vertex_key, hint }, stats));
